@@ -50,14 +50,17 @@ theorem openDir_propagates (env : Env) (fuel : Nat) (d : DirStream) (path : Stri
 theorem openFile_propagates (env : Env) (fuel : Nat) (d : DirStream) (path : String) :
     Propagates (openFile env fuel d path) := ioSafe_propagates (openFile_ioSafe env fuel d path)
 
-/-- `create_file`, PARTIAL: up to an error of `write_entry`'s roll-back run after the fault (`EntryRollbackX`) -/
+/-- `create_file`, PARTIAL: up to an error of `write_entry`'s roll-back run after the fault (`EntryRollbackX`). The
+    residual case is EXCLUDED on every device on which the directory is writable in the sense of the simulation layer:
+    `createFile_propagates_wview` (Props/C09wview.lean; a separate file only because of its imports). -/
 theorem createFile_propagates_partial (env : Env) (fuel : Nat) (d : DirStream) (path : String) :
     PropagatesX EntryRollbackX (createFile env fuel d path) := createFile_propagatesX env fuel d path
 
 theorem remove_propagates (env : Env) (fuel : Nat) (d : DirStream) (path : String) :
     Propagates (remove env fuel d path) := ioSafe_propagates (remove_ioSafe env fuel d path)
 
-/-- `rename`, PARTIAL: up to an error of `write_entry`'s roll-back run after the fault (`EntryRollbackX`) -/
+/-- `rename`, PARTIAL: up to an error of `write_entry`'s roll-back run after the fault (`EntryRollbackX`); excluded on
+    writable directories: `rename_propagates_wview` (Props/C09wview.lean) -/
 theorem rename_propagates_partial (env : Env) (fuel : Nat) (d : DirStream) (src : String) (dst : DirStream)
     (dstPath : String) : PropagatesX EntryRollbackX (rename env fuel d src dst dstPath) :=
   rename_propagatesX env fuel d src dst dstPath
